@@ -1538,7 +1538,10 @@ def make_ptlc_witness(
             {**sigfields}
         )
         m = stack.get()
-        x = aggregate_scalars([derive_key_from_seed(prvkey), tweak_scalar])
+        # derive_point ignores bit 255 of the tweak scalar; so must the sum
+        x = aggregate_scalars([
+            derive_key_from_seed(prvkey), clamp_scalar(tweak_scalar)
+        ])
         sig = sign_with_scalar(x, m)
         return Script.from_src(f'push x{sig.hex()}{sigflags} true')
     return make_single_sig_witness(prvkey, sigfields, sigflags, sign_script_prefix) \
